@@ -161,3 +161,55 @@ func specBase(v31 bool, av, ac, pr, ui, s, c, i, a string) int {
 }
 
 func tenth(k int) float64 { return float64(k) / 10 }
+
+// specTemporal: Roundup(base * E * RL * RC) on the rounded base score (tenth index in, tenth index out).
+func specTemporal(v31 bool, baseTenth int, e, rl, rc string) int {
+	b := vrt.RDivInt(vrt.RInt(baseTenth), 10)
+	return specRoundup(vrt.RMul(vrt.RMul(vrt.RMul(b, specE(e)), specRL(rl)), specRC(rc)), v31)
+}
+
+// eff returns the effective code of a Modified metric: its own value, or the base value when X.
+func eff(m, base string) string {
+	if m == "X" {
+		return base
+	}
+	return m
+}
+
+// specEnv returns the environmental score as a tenth index.
+func specEnv(v31 bool, av, ac, pr, ui, s, c, i, a, e, rl, rc, cr, ir, ar, mav, mac, mpr, mui, ms, mc, mi, ma string) int {
+	one := vrt.RInt(1)
+	changed := eff(ms, s) == "C"
+	miss := vrt.RMin(vrt.RSub(one,
+		vrt.RMul(vrt.RMul(
+			vrt.RSub(one, vrt.RMul(specReq(cr), specCIA(eff(mc, c)))),
+			vrt.RSub(one, vrt.RMul(specReq(ir), specCIA(eff(mi, i))))),
+			vrt.RSub(one, vrt.RMul(specReq(ar), specCIA(eff(ma, a)))))),
+		vrt.R("0.915"))
+	var impact R
+	if changed {
+		if v31 {
+			impact = vrt.RSub(vrt.RMul(vrt.R("7.52"), vrt.RSub(miss, vrt.R("0.029"))),
+				vrt.RMul(vrt.R("3.25"), vrt.RPow(vrt.RSub(vrt.RMul(miss, vrt.R("0.9731")), vrt.R("0.02")), 13)))
+		} else {
+			impact = vrt.RSub(vrt.RMul(vrt.R("7.52"), vrt.RSub(miss, vrt.R("0.029"))),
+				vrt.RMul(vrt.R("3.25"), vrt.RPow(vrt.RSub(miss, vrt.R("0.02")), 15)))
+		}
+	} else {
+		impact = vrt.RMul(vrt.R("6.42"), miss)
+	}
+	expl := vrt.RMul(vrt.RMul(vrt.RMul(vrt.RMul(vrt.R("8.22"), specAV(eff(mav, av))), specAC(eff(mac, ac))), specPR(eff(mpr, pr), changed)), specUI(eff(mui, ui)))
+	if vrt.RLe(impact, vrt.RInt(0)) {
+		return 0
+	}
+	var inner int
+	if changed {
+		inner = specRoundup(vrt.RMin(vrt.RMul(vrt.R("1.08"), vrt.RAdd(impact, expl)), vrt.RInt(10)), v31)
+	} else {
+		inner = specRoundup(vrt.RMin(vrt.RAdd(impact, expl), vrt.RInt(10)), v31)
+	}
+	return specTemporal(v31, inner, e, rl, rc)
+}
+
+// tenthIndex recovers k from a score that lies on the tenth grid (exactly: nearest integer to 10*x).
+func tenthIndex(x float64) int { return vrt.RRound(vrt.RMul(vrt.RFromFloat(x), vrt.RInt(10))) }
